@@ -369,7 +369,10 @@ func (c *Ctx) runTLC(dir string, o TLCOpts) *TLCResult {
 		o.HeapMB = 4096
 	}
 	meta := filepath.Join(dir, "meta-"+o.Module+"-"+strconv.FormatInt(time.Now().UnixNano(), 36))
-	args := []string{"-XX:+UseParallelGC", fmt.Sprintf("-Xmx%dm", o.HeapMB), "-Xss64m"}
+	// TLC unpacks its standard modules into java.io.tmpdir on every run: keep that inside the run's work directory
+	jtmp := filepath.Join(dir, "jtmp")
+	os.MkdirAll(jtmp, 0o755)
+	args := []string{"-XX:+UseParallelGC", fmt.Sprintf("-Xmx%dm", o.HeapMB), "-Xss64m", "-Djava.io.tmpdir=" + jtmp}
 	if o.Workers == 1 {
 		args = append(args, "-XX:ParallelGCThreads=2", "-XX:CICompilerCount=2")
 	}
